@@ -207,7 +207,8 @@ check('C07',
       'the correspondence run (every case evaluated by vm_compute on the model and compared BIT FOR BIT with the implementation) and by the '
       'exact-rational monitor (|result - exact| <= 2^-52, normalised, type Phase) on every run.',
       'day_frac (statement by statement over primitive floats), the real/imaginary bookkeeping of Phase.from_angles and the arguments the '
-      'add, subtract, multiply, divide, negative, positive, absolute and comparison branches of Phase.__array_ufunc__ hand on are REGENERATED '
+      'add, subtract, multiply, divide, negative, positive, absolute and comparison branches of Phase.__array_ufunc__ hand on, and the whole '
+      'floor_divide/remainder/divmod branch (gen_divmod), are REGENERATED '
       'from pulsar/phase.py by translator T7 on every run; C07_generated_* prove the model equal to them. '
       'Trusted: Coq kernel, stdlib FloatAxioms (kernel binary64 = IEEE 754), stdlib Uint63 axioms (of_Z_spec, for decoding / encoding doubles) + real-number axioms through Flocq; astropy two_sum / '
       'two_product / split as transcribed (bit-exact on every case); np.floor = floor; the C floor_divide of numpy / fmod = the model np_divmod (bit-exact comparison on every run; the model is proved to be the exact floor). Known finding D21 (Phase divisor in //, %, divmod '
@@ -233,6 +234,9 @@ check('C15',
       'correspondence run - every case evaluated by vm_compute and compared index for index, bit for bit, character for character - and '
       'decided by the exact-rational monitor (order of exact values; |parsed - decimal value| <= 2^-52; printed string = exact value '
       'rounded to the digits shown; from_string(to_string(p)) = p; a real string never gives an imaginary phase).',
+      'The comparison difference, the single-double cycle, argmin/argmax (reduction, difference, pick), the lexsort keys and their priority in '
+      'argsort, and min/max/ptp through the index functions are REGENERATED from pulsar/phase.py by translator T7 on every run; '
+      'C15_generated_* prove the model equal to them. '
       'Trusted: Coq kernel, stdlib FloatAxioms + real axioms through Flocq; CPython float()/repr()/format and 10**-k as modelled (validated '
       'on every case). Phases closer than 2^-53 but unequal are below the format\'s resolution (not sampled). Known finding D16: rendered '
       'digits are those of the binary64 fraction (<= 1e-16 off at >= 16 decimals or next to a rounding tie). np.sort(phase) / np.ptp(phase) '
